@@ -152,7 +152,12 @@ def f_norm(F, res):
     g = with_helpers(F, "tx3_resolver::trp::parse_resolve_request")
     du = mir.DefUse(g)
     LOOKUPS = ("get", "get_key_value", "contains_key", "remove", "remove_entry", "get_mut", "entry")
-    gets = [(bi, t) for bi, t in mir.calls(g) if re.search(r"(BTreeMap|HashMap)::<K, V(, [A-Z])*>::(%s)$" % "|".join(LOOKUPS), t.get("callee") or "")]
+    from ..common import with_closures
+    g_bodies = with_closures(F, g)
+    # (the match may also run the other way round: a walk over the declared table that looks each declared key up among the
+    # supplied entries, a serde_json map)
+    gets = [(bi, t) for gb in g_bodies for bi, t in mir.calls(gb)
+            if re.search(r"((BTreeMap|HashMap)::<K, V(, [A-Z])*>|serde_json::Map::<[^>]*>)::(%s)$" % "|".join(LOOKUPS), t.get("callee") or "")]
     # the table of declared parameters is read, never consumed, while the request is matched against it: an entry that is
     # removed when first bound makes the outcome depend on the order in which env and args are walked (the explicit argument
     # loses against the environment entry of the same key)
@@ -168,7 +173,7 @@ def f_norm(F, res):
     else:
         res.add([ok("F-NORM", keyr, where(g), "find_params(..) is only looked up")])
     key = "tx3_resolver::trp::parse_resolve_request|lookup is verbatim"
-    low = any("to_lowercase" in (t.get("callee") or "") for _, t in mir.calls(g))
+    low = any("to_lowercase" in (t.get("callee") or "") for gb in g_bodies for _, t in mir.calls(gb))
     if gets and not low:
         res.add([ok("F-NORM", key, where(g), "params.get(&key) with the client's key as sent: the TII must spell keys exactly like the IR")])
     elif gets:
